@@ -18,7 +18,7 @@ take the "obligation broken" branch of ./check.
 import json, os, re, subprocess, sys
 
 ROOT = os.path.dirname(os.path.dirname(os.path.abspath(__file__)))
-REPO = os.environ.get("VERIF_REPO_SRC", "/repo/src")
+REPO = os.environ.get("VERIF_REPO_SRC") or os.path.join(os.environ.get("VERIF_REPO", "/repo"), "src")
 OUT = os.path.join(ROOT, "lean", "LSModel", "GenRepr.lean")
 STATUS = os.path.join(ROOT, "tools", "rs2lean.status.json")
 
@@ -392,7 +392,22 @@ class P:
     def if_(self):
         self.eat("if")
         if self.at("let"):
-            raise Bad("if let")
+            # `if let Ctor(x) = e { a } else { b }`  ==  `match e { Ctor(x) => a, _ => b }`
+            self.eat("let")
+            pk, pv = self.eat()
+            pat = [pv]
+            if self.at("("):
+                self.eat()
+                pat.append(self.eat()[1])
+                self.eat(")")
+            self.eat("=")
+            scrut = self.expr(nostruct=True)
+            a = self.block()
+            b = ("block", [], None)
+            if self.at("else"):
+                self.eat()
+                b = self.if_() if self.at("if") else self.block()
+            return ("match", scrut, [(pat, a), (["_"], b)])
         c = self.expr(nostruct=True)
         a = self.block()
         b = None
@@ -507,7 +522,7 @@ TYMAP = [
     (r"^Result < Option < char > , ReserveError >$", "Rs (Option Chr)"),
     (r"^Result < char , ReserveError >$", "Rs Chr"),
     (r"^Self$", "Handle"), (r"^Repr$", "Handle"), (r"^bool$", "Bool"), (r"^usize$", "Nat"), (r"^u8$", "Nat"),
-    (r"^& (' static )?str$", "Str"), (r"^$", "Unit"), (r"^char$", "Chr"),
+    (r"^& 'static str$", "SStr"), (r"^& str$", "Str"), (r"^$", "Unit"), (r"^char$", "Chr"),
     (r"^impl NumToRepr$", None),
 ]
 
@@ -741,6 +756,7 @@ TARGETS = [
     ("repr.rs", "impl Repr", "new", "Repr.new", False),
     ("repr.rs", "impl Repr", "from_str", "Repr.from_str", False),
     ("repr.rs", "impl Repr", "with_capacity", "Repr.with_capacity", False),
+    ("repr.rs", "impl Repr", "from_static_str", "Repr.from_static_str", False),
     ("repr.rs", "impl Repr", "capacity", "Repr.capacity", False),
     ("repr.rs", "impl Repr", "is_unique", "Repr.is_unique", False),
     ("repr.rs", "impl Repr", "replace_inner", "Repr.replace_inner", False),
@@ -762,7 +778,7 @@ TARGETS = [
 # expected Lean signatures (used for the stub of a poisoned function, and checked against the source)
 SIGS = {
     "Repr.new": ([], "Handle"), "Repr.from_str": ([("text", "Str")], "Rs Handle"),
-    "Repr.with_capacity": ([("capacity", "Nat")], "Rs Handle"), "Repr.capacity": ([], "Nat"), "Repr.is_unique": ([], "Bool"),
+    "Repr.with_capacity": ([("capacity", "Nat")], "Rs Handle"), "Repr.from_static_str": ([("text", "SStr")], "Rs Handle"), "Repr.capacity": ([], "Nat"), "Repr.is_unique": ([], "Bool"),
     "Repr.replace_inner": ([("other", "Handle")], "Unit"), "Repr.set_len": ([("new_len", "Nat")], "Unit"),
     "Repr.truncate_unchecked": ([("new_len", "Nat")], "Rs Unit"), "Repr.truncate": ([("new_len", "Nat")], "Rs Unit"),
     "Repr.make_shallow_clone": ([], "Handle"), "Repr.reserve": ([("additional", "Nat")], "Rs Unit"),
